@@ -12,17 +12,18 @@ structure Desc where
   deriving Repr, DecidableEq
 
 /-- `NewQRLDescriptorFromBytes` (and the identical `LegacyQRLDescriptorFromBytes`) on bytes 0 and 1;
-byte 2 is ignored. -/
+byte 2 is ignored. The nibble operations `b & 0x0f`, `(b >> 4) & 0x0f`, `(b & 0x0f) << 1`, `(b & 0xf0) >> 4`
+are written arithmetically. -/
 def Desc.ofBytes (b0 b1 : UInt8) : Desc :=
-  { hashFn := (b0 &&& 0x0f).toNat
-    sigType := ((b0 >>> 4) &&& 0x0f).toNat
-    height := ((b1 &&& 0x0f) <<< 1).toNat
-    addrFmt := ((b1 &&& 0xf0) >>> 4).toNat }
+  { hashFn := b0.toNat % 16
+    sigType := b0.toNat / 16
+    height := (b1.toNat % 16) * 2
+    addrFmt := b1.toNat / 16 }
 
-/-- `QRLDescriptor.GetBytes` -/
+/-- `QRLDescriptor.GetBytes`: `(uint8(sig) << 4) | (uint8(hf) & 0x0f)`, `(uint8(fmt) << 4) | ((height >> 1) & 0x0f)`, 0 -/
 def Desc.bytes (d : Desc) : Bytes :=
-  [ (UInt8.ofNat d.sigType <<< 4) ||| (UInt8.ofNat d.hashFn &&& 0x0f),
-    (UInt8.ofNat d.addrFmt <<< 4) ||| ((UInt8.ofNat d.height >>> 1) &&& 0x0f),
+  [ UInt8.ofNat ((d.sigType % 16) * 16 + d.hashFn % 16),
+    UInt8.ofNat ((d.addrFmt % 16) * 16 + (d.height % 256) / 2 % 16),
     0 ]
 
 /-- parse the 3-byte descriptor at the head of a byte string (Go panics unless exactly 3 bytes are passed;
